@@ -545,6 +545,12 @@ fn harnesses(tier: Tier) -> Vec<Harness> {
     v.push(hg("whole-pages-wide-mark-vs-harvest", 65, 7, 0, vec![], vec![vec![SetRange(63 * 7 + 6, 2), SetBit(0)], vec![Harvest]]));
     // marks and resets that run past the end of a bitmap whose page count is not a multiple of
     // 64: the harvest reports existing pages only, a clone holds existing pages only
+    // marks made through the Bitmap trait (slices) on page sizes that are not a power of two,
+    // short ranges that cross a page boundary, inside one word and across two words
+    v.push(hg("odd-page-slice-mark-across-pages-vs-harvest", 70, 100, 0, vec![], vec![vec![SliceMark(0, 95, 10)], vec![Harvest]]));
+    v.push(hg("odd-page-slice-mark-across-words-vs-harvest", 70, 100, 0, vec![], vec![vec![SliceMark(0, 6395, 16), SliceMark(100, 195, 10)], vec![Harvest]]));
+    v.push(hg("three-byte-pages-slice-mark-vs-harvest-vs-mark", 9, 3, 1, vec![], vec![vec![SliceMark(0, 1, 3)], vec![Harvest], vec![SliceMark(3, 4, 3)]]));
+    v.push(hg("odd-page-nested-slice-mark-vs-reset", 9, 7, 0, vec![1], vec![vec![SliceMark(7, 5, 4)], vec![ResetRange(7, 7), SliceMark(0, 13, 2)]]));
     // (the library visits every page of the range, existing or not, and each visit is a
     // scheduling point: preemption-bounded)
     v.push(h("mark-past-the-end-vs-harvest", vec![vec![SetRange(128, 64)], vec![Harvest]], Some(2)));
